@@ -237,8 +237,13 @@ def draw_cfg(rng: random.Random, methods=None, pipes=None, target=None, months=N
         diameter = r3(rng.uniform(0.13, 0.16))
     else:
         diameter = r3(rng.uniform(0.15, 0.18))
-    min_h = r3(rng.uniform(40.0, 70.0))
-    max_h = r3(min_h + rng.uniform(40.0, 90.0))
+    if rng.random() < 0.25:
+        # shallow fields: below ~70 m the short-time-step model runs for its minimum duration whatever the soil
+        min_h = r3(rng.uniform(25.0, 45.0))
+        max_h = r3(min_h + rng.uniform(15.0, 30.0))
+    else:
+        min_h = r3(rng.uniform(40.0, 70.0))
+        max_h = r3(min_h + rng.uniform(40.0, 90.0))
     borehole = {"height": r3(rng.uniform(min_h, max_h)), "buried_depth": r3(rng.uniform(1.0, 4.0)),
                 "diameter": diameter}
     if months is None:
